@@ -139,16 +139,28 @@ func OpDiv(x Value, y Value) Value {
 }
 
 func OpMod(x Value, y Value) Value {
-	return IntVal(ToInt(x) % ToInt(y))
+	yi := ToInt(y)
+	if yi == 0 {
+		panic("modulo by zero")
+	}
+	return IntVal(ToInt(x) % yi)
 }
 
 func OpLeftShift(x Value, y Value) Value {
-	result := ToInt(x) << ToInt(y)
+	result := ToInt(x) << shiftCount(y)
 	return IntVal(result)
 }
 
+func shiftCount(y Value) int {
+	n := ToInt(y)
+	if n < 0 {
+		panic("negative shift count")
+	}
+	return n
+}
+
 func OpRightShift(x Value, y Value) Value {
-	result := uint(ToInt(x)) >> ToInt(y)
+	result := uint(ToInt(x)) >> shiftCount(y)
 	return IntVal(int(result))
 }
 
